@@ -174,6 +174,10 @@ func CollectJSONStream(ctx context.Context, opts CollectJSONOptions) ([]byte, er
 
 	docs, errs := opts.getSource()
 
+	// what periodic flushes produced so far when the data is returned
+	// rather than written to files
+	var result []byte
+
 	for {
 		select {
 		case <-ctx.Done():
@@ -182,7 +186,10 @@ func CollectJSONStream(ctx context.Context, opts CollectJSONOptions) ([]byte, er
 			if err == nil || errors.Cause(err) == io.EOF {
 				var output []byte
 				output, err = flusher()
-				return output, errors.Wrap(err, "problem flushing results at the end of the file")
+				if err != nil {
+					return nil, errors.Wrap(err, "problem flushing results at the end of the file")
+				}
+				return append(result, output...), nil
 			}
 			return nil, errors.WithStack(err)
 		case doc := <-docs:
@@ -190,8 +197,12 @@ func CollectJSONStream(ctx context.Context, opts CollectJSONOptions) ([]byte, er
 				return nil, errors.Wrap(err, "problem collecting results")
 			}
 		case <-flushTimer.C:
+			// a periodic flush is not the end of the input: keep collecting
 			output, err := flusher()
-			return output, errors.Wrap(err, "problem flushing results")
+			if err != nil {
+				return nil, errors.Wrap(err, "problem flushing results")
+			}
+			result = append(result, output...)
 		}
 	}
 }
